@@ -17,7 +17,7 @@ cp $src/demo_test.go actor/zz_seed_demo_test.go
 go build ./... >>$log 2>&1 && echo "build with patch: ok" >>$log || echo "build with patch: FAILED" >>$log
 go test -vet=off -count=1 -run "$demo" ./actor/ >$out/.demo_with.txt 2>&1; rc_with=$?
 tail -5 $out/.demo_with.txt >>$log
-go test -vet=off -count=1 -run "$existing" -skip 'TestNonBlockingBoundedMailbox/With_concurrent|zz_seed' ./actor/ >$out/.existing.txt 2>&1; rc_ex=$?
+go test -vet=off -count=1 -run "$existing" -skip "TestNonBlockingBoundedMailbox/With_concurrent|$demo" ./actor/ >$out/.existing.txt 2>&1; rc_ex=$?
 grep -E "^(--- FAIL|FAIL|ok)" $out/.existing.txt | head -10 >>$log
 git checkout -q -- . 
 go test -vet=off -count=1 -run "$demo" ./actor/ >$out/.demo_without.txt 2>&1; rc_without=$?
